@@ -353,13 +353,63 @@ Qed.
 
 (* ================================================================ the protocol, as the property text has it *)
 (* what the client reads in answer to one of its lines, and how it must judge it *)
+(* the command of a reply line is its first space-separated word; a reply accepts iff that word is exactly the
+   expected one ("OK" for AUTH, "AGREE_UNIX_FD" for NEGOTIATE_UNIX_FD): OKAY, OKfoo, AGREE_UNIX_FDX do not *)
+Definition first_word (line : list N) : list N :=
+  match split_once SPACE line with Some (w, _) => w | None => line end.
+Definition accepts (word line : list N) : bool := bytes_eqb (first_word line) word.
+
+Lemma strip_prefix_spec pfx s rest : strip_prefix pfx s = Some rest <-> s = pfx ++ rest.
+Proof.
+  revert s; induction pfx as [|x p IH]; intros s; cbn [strip_prefix app].
+  - split; [intros E; now inversion E|intros ->; reflexivity].
+  - destruct s as [|y s]; [split; discriminate|]. destruct (N.eqb_spec x y) as [->|Hne].
+    + rewrite IH. split; [intros ->; reflexivity|intros E; now inversion E].
+    + split; [discriminate|intros E; inversion E; congruence].
+Qed.
+(* the code's test is the specification's, for a command word without a space *)
+Lemma is_command_spec word line : ~ In SPACE word -> is_command line word = accepts word line.
+Proof.
+  intros Hw. unfold is_command, accepts, first_word.
+  destruct (strip_prefix word line) as [rest|] eqn:E.
+  - apply strip_prefix_spec in E. subst line. destruct rest as [|c rest].
+    + rewrite app_nil_r. rewrite (proj2 (split_once_none SPACE word) Hw). now rewrite bytes_eqb_refl.
+    + destruct (N.eqb_spec c SPACE) as [->|Hc].
+      * rewrite (proj2 (split_once_some SPACE (word ++ SPACE :: rest) word rest) (conj eq_refl Hw)). now rewrite bytes_eqb_refl.
+      * symmetry. apply bytes_eqb_neq. intros Hfw.
+        destruct (split_once SPACE (word ++ c :: rest)) as [[w r]|] eqn:Es.
+        -- apply split_once_some in Es. destruct Es as [Es Hnw]. subst w. rewrite <- (app_nil_r word) in Es at 2.
+           rewrite <- app_assoc in Es. apply app_inv_head in Es. cbn in Es. inversion Es. congruence.
+        -- assert (Hl : length (word ++ c :: rest) = length word) by now rewrite Hfw. rewrite app_length in Hl. cbn in Hl. lia.
+  - symmetry. apply bytes_eqb_neq. intros Hfw.
+    assert (Hs : exists rest, line = word ++ rest).
+    { destruct (split_once SPACE line) as [[w r]|] eqn:Es.
+      - apply split_once_some in Es. destruct Es as [-> _]. subst w. eauto.
+      - subst line. exists []. now rewrite app_nil_r. }
+    destruct Hs as [rest Hs]. apply strip_prefix_spec in Hs. congruence.
+Qed.
+(* in words: the line is the word alone, or the word, a space, and arguments *)
+Lemma accepts_iff word line : ~ In SPACE word ->
+  (accepts word line = true <-> line = word \/ exists args, line = word ++ SPACE :: args).
+Proof.
+  intros Hw. unfold accepts, first_word. rewrite bytes_eqb_spec. split.
+  - destruct (split_once SPACE line) as [[w r]|] eqn:E.
+    + apply split_once_some in E. destruct E as [-> _]. intros ->. right. now exists r.
+    + intros ->. now left.
+  - intros [->|[args ->]].
+    + now rewrite (proj2 (split_once_none SPACE word) Hw).
+    + now rewrite (proj2 (split_once_some SPACE (word ++ SPACE :: args) word args) (conj eq_refl Hw)).
+Qed.
+Lemma OK_no_space : ~ In SPACE OK_. Proof. cbv. intuition discriminate. Qed.
+Lemma AGREE_no_space : ~ In SPACE AGREE_UNIX_FD. Proof. cbv. intuition discriminate. Qed.
+
 Inductive reply_shape (word : list N) : list event -> auth_res -> Prop :=
-| ReplyAccept ps line dropped :        (* a complete UTF-8 line that starts with the expected word *)
+| ReplyAccept ps line dropped :        (* a complete UTF-8 line whose command word is the expected one *)
     first_line (concat ps) line dropped -> stops_early ps dropped ->
-    utf8_valid line = true -> starts_with word line = true -> reply_shape word (map R ps) AOk
+    utf8_valid line = true -> accepts word line = true -> reply_shape word (map R ps) AOk
 | ReplyReject ps line dropped :        (* a complete UTF-8 line that does not (REJECTED, ERROR, garbage, ...) *)
     first_line (concat ps) line dropped -> stops_early ps dropped ->
-    utf8_valid line = true -> starts_with word line = false -> reply_shape word (map R ps) ARejected
+    utf8_valid line = true -> accepts word line = false -> reply_shape word (map R ps) ARejected
 | ReplyNotUtf8 ps line dropped :       (* a complete line that is not UTF-8 *)
     first_line (concat ps) line dropped -> utf8_valid line = false -> reply_shape word (map R ps) AErr
 | ReplyEof ps :                        (* the peer closed before completing a line *)
@@ -377,7 +427,7 @@ Definition reply (word : list N) (evs : list event) (a : auth_res) : Prop :=
   reply_shape word evs a /\ within_limits evs.
 
 Definition accepted (word r : list N) : Prop :=
-  exists line dropped, first_line r line dropped /\ utf8_valid line = true /\ starts_with word line = true.
+  exists line dropped, first_line r line dropped /\ utf8_valid line = true /\ accepts word line = true.
 
 Definition AUTH_LINE (hex : list N) : list N := AUTH_EXTERNAL ++ hex ++ CRLF.
 Definition NEG_LINE : list N := NEGOTIATE_UNIX_FD ++ CRLF.
@@ -525,7 +575,7 @@ Qed.
 
 (* one request/response exchange: write_message(msg), read_message into a fresh buffer, classify *)
 Lemma exchange_spec fuel word msg s :
-  (avail s < fuel)%nat -> wf s ->
+  (avail s < fuel)%nat -> wf s -> ~ In SPACE word ->
   match write_message msg s with
   | None => closed s = true
   | Some s1 =>
@@ -538,7 +588,7 @@ Lemma exchange_spec fuel word msg s :
       end
   end.
 Proof.
-  intros Hf Hwf. unfold write_message. destruct (sock_write s (msg ++ CRLF) true) as [s1|] eqn:Ew.
+  intros Hf Hwf Hsp. unfold write_message. destruct (sock_write s (msg ++ CRLF) true) as [s1|] eqn:Ew.
   - pose proof (sock_write_line _ _ _ Ew) as [Hfut Hst]. pose proof (wf_write _ _ _ _ Hwf Ew) as Hwf1.
     apply sock_write_some in Ew. destruct Ew as (Hc & Hext & _). split; [exact Hc|].
     destruct (ext_avail _ _ _ Hext) as [_ Hrq].
@@ -549,12 +599,13 @@ Proof.
     assert (Hlim : forall evs, log s2 = log s1 ++ evs -> within_limits evs).
     { intros evs El. eapply limits_from_logs; eauto. }
     destruct r as [line| | | |]; cbn [classify].
-    + destruct Hr as (El & dropped & Hfl & Hu & Hstop). exists (map R ps). split; [|split; [|split; [|split]]].
+    + rewrite (is_command_spec word line Hsp).
+      destruct Hr as (El & dropped & Hfl & Hu & Hstop). exists (map R ps). split; [|split; [|split; [|split]]].
       * apply (ext_trans s s1 s2 [W (msg ++ CRLF)] (map R ps) Hext).
         rewrite <- (app_nil_r (map R ps)). apply ext_reads; auto. now rewrite app_nil_r.
-      * split; [|now apply Hlim]. destruct (starts_with word line) eqn:Es; econstructor; eauto.
+      * split; [|now apply Hlim]. destruct (accepts word line) eqn:Es; econstructor; eauto.
       * congruence.
-      * destruct (starts_with word line); discriminate.
+      * destruct (accepts word line); discriminate.
       * exact Hwf2.
     + destruct Hr as [(El & line & dropped & Hfl & Hu)|[(El & Hn & Hq & Hcl)|(El & Hn & Hl)]].
       * exists (map R ps). split; [|split; [|split; [congruence|split; [discriminate|exact Hwf2]]]].
@@ -615,7 +666,7 @@ Proof.
   pose proof (sock_write_noline _ _ _ Ew0) as Hfut1. pose proof (wf_write _ _ _ _ Hwf0 Ew0) as Hwf1.
   apply sock_write_some in Ew0. destruct Ew0 as (Hc0 & Hext0 & Hc1). specialize (Hc1 eq_refl).
   rewrite Hhex. destruct (ext_avail _ _ _ Hext0) as [Hav1 _].
-  pose proof (exchange_spec fuel OK_ (AUTH_EXTERNAL ++ hex) s1 ltac:(lia) Hwf1) as H1.
+  pose proof (exchange_spec fuel OK_ (AUTH_EXTERNAL ++ hex) s1 ltac:(lia) Hwf1 OK_no_space) as H1.
   destruct (write_message (AUTH_EXTERNAL ++ hex) s1) as [s2|]; [|congruence].
   destruct H1 as [_ H1]. destruct (read_message fuel s2 []) as [r1 s3].
   destruct H1 as (evs1 & Hext1 & Hrep1 & Hfut3 & Hsil1 & Hwf3). rewrite Hfut1 in Hfut3, Hsil1.
@@ -627,7 +678,7 @@ Proof.
     destruct (ext_avail _ _ _ Hext03) as [Hav3 _].
     destruct with_fd.
     + unfold negotiate_unix_fds.
-      pose proof (exchange_spec fuel AGREE_UNIX_FD NEGOTIATE_UNIX_FD s3 ltac:(lia) Hwf3) as H2.
+      pose proof (exchange_spec fuel AGREE_UNIX_FD NEGOTIATE_UNIX_FD s3 ltac:(lia) Hwf3 AGREE_no_space) as H2.
       destruct (write_message NEGOTIATE_UNIX_FD s3) as [s4|].
       2:{ cbn [lift]. eexists. split; [exact Hext03|split; [now apply RunNegFailed|discriminate]]. }
       destruct H2 as [_ H2]. destruct (read_message fuel s4 []) as [r2 s5].
@@ -686,7 +737,7 @@ Lemma reply_received word evs a : reply word evs a ->
   exists ps, received evs = concat ps /\ (forall x r t, segs (Some (x, r)) (evs ++ t) = segs (Some (x, r ++ concat ps)) t)
              /\ sent evs = []
              /\ (a = AOk -> accepted word (concat ps))
-             /\ (a = ARejected -> exists line dropped, first_line (concat ps) line dropped /\ utf8_valid line = true /\ starts_with word line = false)
+             /\ (a = ARejected -> exists line dropped, first_line (concat ps) line dropped /\ utf8_valid line = true /\ accepts word line = false)
              /\ (a = ABlocked -> ~ has_crlf (concat ps)).
 Proof.
   intros [H _]. inversion H; subst; exists ps; unfold received.
@@ -803,10 +854,10 @@ Theorem conforming_class hex with_fd evs res :
   conforming hex with_fd evs res ->
   match res with
   | CAuthFailed => exists r1 line dropped, segments evs = [(NUL, []); (AUTH_LINE hex, r1)]
-                     /\ first_line r1 line dropped /\ utf8_valid line = true /\ starts_with OK_ line = false
+                     /\ first_line r1 line dropped /\ utf8_valid line = true /\ accepts OK_ line = false
   | CFdFailed => with_fd = true /\ exists r1 r2 line dropped,
                      segments evs = [(NUL, []); (AUTH_LINE hex, r1); (NEG_LINE, r2)] /\ accepted OK_ r1
-                     /\ first_line r2 line dropped /\ utf8_valid line = true /\ starts_with AGREE_UNIX_FD line = false
+                     /\ first_line r2 line dropped /\ utf8_valid line = true /\ accepts AGREE_UNIX_FD line = false
   | CBlocked => exists before w r, segments evs = before ++ [(w, r)] /\ ~ has_crlf r
   | COk | CErr => True
   | CPanic | CFuel => False
@@ -836,14 +887,14 @@ Theorem conforming_refusal hex with_fd evs res :
   conforming hex with_fd evs res ->
   forall i w r line dropped,
     nth_error (segments evs) i = Some (w, r) -> first_line r line dropped ->
-    (i = 1%nat /\ (utf8_valid line && starts_with OK_ line) = false)
-    \/ (i = 2%nat /\ with_fd = true /\ (utf8_valid line && starts_with AGREE_UNIX_FD line) = false) ->
+    (i = 1%nat /\ (utf8_valid line && accepts OK_ line) = false)
+    \/ (i = 2%nat /\ with_fd = true /\ (utf8_valid line && accepts AGREE_UNIX_FD line) = false) ->
     ~ In BEGIN_LINE (map fst (segments evs)) /\ res <> COk.
 Proof.
   intros H i w r line dropped Hnth Hfl Hcase.
   destruct (conforming_order _ _ _ _ H) as (n & r1 & r2 & Es & Hn1 & Hacc1 & Hacc2 & Hok & Hle).
   rewrite Es in *. clear Es H.
-  assert (Hcontra : forall word, accepted word r -> (utf8_valid line && starts_with word line) = false -> False).
+  assert (Hcontra : forall word, accepted word r -> (utf8_valid line && accepts word line) = false -> False).
   { intros word (l2 & d2 & Hfl2 & Hu2 & Hs2) Hb. destruct (first_line_unique _ _ _ _ _ Hfl Hfl2) as [-> _].
     rewrite Hu2, Hs2 in Hb. discriminate. }
   destruct Hcase as [[-> Hb]|(-> & -> & Hb)].
